@@ -40,6 +40,11 @@ GEN_TABLES = {
              {"nw": 2, "kind": "pause", "del": True, "maxfail": 1, "wait": True}),
     "nw1": (dict(M.BASE, NT=3, NW=1, Kind="pause", MaxRep=3, MaxRuns=3, FailB=1, MaxFail=0, R3=False, R13=False),
             {"nw": 1, "kind": "pause", "del": True, "maxfail": 0}),
+    # start_jobs_without_delay = False: the number of free workers is asked from the back-end
+    "ask": (dict(M.BASE, NT=4, Kind="stop", MaxRep=2, MaxRuns=1, FailB=1, R3=False, R13=False, Sjwd=False),
+            {"nw": 2, "kind": "stop", "del": True, "maxfail": 1, "sjwd": False}),
+    "ask_pause": (dict(M.BASE, NT=3, Kind="pause", MaxRep=2, MaxRuns=2, FailB=1, R3=False, R13=False, Sjwd=False),
+                  {"nw": 2, "kind": "pause", "del": True, "maxfail": 1, "sjwd": False}),
     # PBT-type scheduler: clone decisions queued in on_trial_result, popped by suggest (R8: see known finding F08)
     "pbt": (dict(M.BASE, NT=4, Kind="pbt", MaxRep=3, MaxRuns=1, FailB=1, R3=False, R13=False, R8=True),
             {"nw": 2, "kind": "pbt", "del": True, "maxfail": 1}),
@@ -55,6 +60,8 @@ COVER_TABLES = {
     "stop2": (dict(M.BASE, NT=2, NW=2, Kind="stop", MaxRep=2, MaxRuns=1, FailB=1, ExtB=1, MaxFail=0, EmptyExit=True,
                    R3=False, R13=False),
               {"nw": 2, "kind": "stop", "del": False, "maxfail": 0}),
+    "ask3": (dict(M.BASE, NT=3, NW=2, Kind="stop", MaxRep=1, MaxRuns=1, FailB=0, R3=False, R13=False, Sjwd=False),
+             {"nw": 2, "kind": "stop", "del": True, "maxfail": 1, "sjwd": False}),
     "pbt3": (dict(M.BASE, NT=3, NW=2, Kind="pbt", MaxRep=2, MaxRuns=1, FailB=0, R3=False, R13=False, R8=True),
              {"nw": 2, "kind": "pbt", "del": True, "maxfail": 1}),
     "pause2x2": (dict(M.BASE, NT=2, NW=2, MaxRep=2, MaxRuns=2, FailB=1, R3=False, R13=False),
